@@ -19,6 +19,15 @@ type enumBuilder struct {
 	commentSet
 }
 
+// isExplicitZero reports whether the first declared option spells out the zero
+// value that is otherwise added implicitly: `UNSPECIFIED`, or the same name
+// carrying the enum's prefix. Any other option, even one whose name merely
+// ends in UNSPECIFIED, is an ordinary option numbered from 1, so that value 0
+// is always <prefix>UNSPECIFIED.
+func isExplicitZero(prefix string, option *schema_j5pb.Enum_Option) bool {
+	return option.Number == 0 && enumValueName(prefix, option.Name) == prefix+"UNSPECIFIED"
+}
+
 func (e *enumBuilder) addValue(number int32, schema *schema_j5pb.Enum_Option) {
 	name := schema.Name
 	if !strings.HasPrefix(name, e.prefix) {
